@@ -44,6 +44,10 @@ func patch(
 		}
 		return o, nil
 	}
+	if len(pathAhead) > 0 && strategy == strictPatchStrategy {
+		// A set or multiset path element addresses the members of an array.
+		return nil, fmt.Errorf("found %v at %v: expected JSON array", node.Json(), pathBehind)
+	}
 	if len(oldValues) > 1 || len(newValues) > 1 {
 		return patchErrNonSetDiff(oldValues, newValues, pathBehind)
 	}
